@@ -30,10 +30,15 @@ TriL1(A, n) == Mat(n, n, LAMBDA r, c : IF c < r THEN At(A, n, r, c) ELSE IF c = 
 TriU(A, m, n) == Mat(m, n, LAMBDA r, c : IF c >= r THEN At(A, n, r, c) ELSE 0)
 TriU1(A, n) == Mat(n, n, LAMBDA r, c : IF c > r THEN At(A, n, r, c) ELSE IF c = r THEN 1 ELSE 0)
 \* index-coded contents
-\* two codings (v = 1, 2); the second has negative entries
-CX(v, r, c) == IF v = 1 THEN 2 + 7 * r + c ELSE 13 * c - 5 * r - 1
-CY(v, r, c) == IF v = 1 THEN 3 + 2 * r + 11 * c ELSE 4 - 3 * r + 2 * c
-CV(v, i) == IF v = 1 THEN 5 + 3 * i ELSE 7 - 4 * i
+\* four codings: 1 positive, 2 with negative entries, 3 with exact zeros scattered over both operands,
+\* 4 with a zero first column / first row (kernels that skip zero entries must still address the right cells)
+CX(v, r, c) == CASE v = 1 -> 2 + 7 * r + c [] v = 2 -> 13 * c - 5 * r - 1
+                 [] v = 3 -> (IF (r + 2 * c) % 3 = 0 THEN 0 ELSE 1 + r + 4 * c)
+                 [] OTHER -> (IF c = 0 THEN 0 ELSE 5 * r - c - 2)
+CY(v, r, c) == CASE v = 1 -> 3 + 2 * r + 11 * c [] v = 2 -> 4 - 3 * r + 2 * c
+                 [] v = 3 -> (IF (2 * r + c) % 3 = 1 THEN 0 ELSE 2 + 3 * r - c)
+                 [] OTHER -> (IF r = 0 THEN 0 ELSE r + c)
+CV(v, i) == CASE v = 1 -> 5 + 3 * i [] v = 2 -> 7 - 4 * i [] v = 3 -> (IF i % 2 = 0 THEN 0 ELSE i) [] OTHER -> i - 2
 
 VARIABLES kern, dims
 Kernels == {"mulmm", "mulTm", "mulmT", "mulTT", "T1", "T2", "eye1", "eye2", "tri1", "tri2", "diag", "diag1", "diag2",
@@ -45,7 +50,7 @@ Init == kern = "none" /\ dims = <<0, 0, 0, 0>>
 Next == kern = "none" /\ \E k \in Kernels, a \in 1..D, b \in 1..D, c \in 1..D :
           /\ (k \notin {"mulmm", "mulTm", "mulmT", "mulTT"} => c = 1)
           /\ (k \in {"T1", "eye1", "tri1", "diag", "diag1", "triL", "triL1", "triU", "triU1"} => b = 1)
-          /\ \E v \in {1, 2} : kern' = k /\ dims' = <<a, b, c, v>>
+          /\ \E v \in {1, 2, 3, 4} : kern' = k /\ dims' = <<a, b, c, v>>
 \* expected result of a call; inputs are the index-coded matrices of the shapes the kernel's documentation states
 Expected(k, d) ==
   LET a == d[1] b == d[2] c == d[3] v == d[4]
